@@ -53,6 +53,7 @@ module.exports = {
       if (r.status !== 'ok-modified' && r.status !== 'ok-notmodified') continue
       if (r.status === 'ok-modified' && !r.aligned) { bump('unaligned'); if (!(js[i].meta.known)) rep.inconclusive.push({ reason: 'unaligned-output', detail: js[i].meta.sigBase }); continue }
       rep.evaluations++
+        if (js[i].meta.splices) bump('programs_with_spliced_operations')
       bump('required_operations', r.required)
       if (r.aligned) { bump('hooked_nodes', r.hooked); bump('required_and_hooked', r.required - r.missed.length) }
       if (r.required > 0) rep.distinct.push(hashStr(js[i].code + '|' + js[i].cfgName))
